@@ -53,7 +53,7 @@ def run_broker(c):
     dh = StubDataHandler(c['quotes'])
     start = ts(cfg['start'])
     try:
-        broker = SimulatedBroker(start, SimulatedExchange(start), dh, account_id='acct',
+        broker = SimulatedBroker(start, SimulatedExchange(ts(cfg['exch_start']) if cfg.get('exch_start') is not None else start), dh, account_id='acct',
                                  base_currency=cfg['base'], initial_funds=cfg['funds'],
                                  fee_model=mk_fee(cfg['fee']))
     except Exception as e:
@@ -93,7 +93,8 @@ def run_broker(c):
                 elif k == 'wdpf':
                     broker.withdraw_funds_from_portfolio(op[1], op[2])
                 elif k == 'submit':
-                    o = Order(broker.current_dt, op[2], op[3])
+                    o = (Order(broker.current_dt, op[2], op[3], commission=op[4]) if len(op) > 4
+                         else Order(broker.current_dt, op[2], op[3]))
                     broker.submit_order(op[1], o)
                     oid[o.order_id] = nxt[0]
                     nxt[0] += 1
